@@ -10,6 +10,19 @@ import (
 // If the system-specific or Go-specific error cannot be mapped to anything, it
 // will be logged and EIO will be returned.
 func ExtractErrno(err error) Errno {
+	// An errno carried anywhere in the chain is authoritative. It has to be
+	// looked for before the generic os errors below: syscall.Errno matches
+	// several of those itself (EPERM is os.ErrPermission, ENOTEMPTY is
+	// os.ErrExist), which would turn it into a different errno.
+	var errno Errno
+	if errors.As(err, &errno) {
+		return errno
+	}
+
+	if e := sysErrno(err); e != 0 {
+		return e
+	}
+
 	for _, pair := range []struct {
 		error
 		Errno
@@ -22,15 +35,6 @@ func ExtractErrno(err error) Errno {
 		if errors.Is(err, pair.error) {
 			return pair.Errno
 		}
-	}
-
-	var errno Errno
-	if errors.As(err, &errno) {
-		return errno
-	}
-
-	if e := sysErrno(err); e != 0 {
-		return e
 	}
 
 	// Default case.
